@@ -4,6 +4,7 @@ package main
 // in-place closures, sync primitives (monitor rule), frame checks.
 
 import (
+	"path/filepath"
 	"fmt"
 	"go/ast"
 	"go/constant"
@@ -685,6 +686,10 @@ func (fc *FnCtx) havocAllHeap(st *State) {
 func (fc *FnCtx) applyCall(st *State, callee *types.Func, recv *Val, args []Val, pos token.Pos, call *ast.CallExpr) []Val {
 	sig := callee.Type().(*types.Signature)
 	c, home, homePkg, key := fc.eng.lookupContract(callee)
+	if lc := fc.cs.Funcs["extern "+key]; lc != nil {
+		c, home = lc, fc.cs
+		key += " (package-local assumed contract, " + filepath.Base(lc.File) + ")"
+	}
 	if c == nil {
 		if fc.eng.effectFree(callee) {
 			fc.dropped["effect-free allow-list: "+callee.FullName()] = true
